@@ -300,8 +300,18 @@ namespace net
         {
           Op o = proto;
           o.a[0] = static_cast<long>(g.below(5));
-          o.a[o.a.size() - 2] = g.range(-8, 8); // the constant of the right-hand side
+          o.a[o.a.size() - 2] = g.chance(1, 2) ? g.range(-2, 2) : g.range(-8, 8); // the constant of the right-hand side (often the same again)
           out.push_back(o);
+          if (g.chance(1, 3))
+          { // the relation just created becomes a root-level fact before the next one over the same expression is asked for
+            Op f;
+            f.name = "clause";
+            f.a = {1, static_cast<long>(g.chance(4, 5) ? 1 : 0), 1000};
+            out.push_back(f);
+            Op pr;
+            pr.name = "prop";
+            out.push_back(pr);
+          }
         }
       }
       else
@@ -315,6 +325,16 @@ namespace net
           o.a[2] = g.range(-dlk, dlk);
           o.a[4] = static_cast<long>(g.below(3) == 0);
           out.push_back(o);
+          if (g.chance(1, 4))
+          {
+            Op f;
+            f.name = "clause";
+            f.a = {1, static_cast<long>(g.chance(4, 5) ? 1 : 0), 1000};
+            out.push_back(f);
+            Op pr;
+            pr.name = "prop";
+            out.push_back(pr);
+          }
         }
       }
       for (int i = 0, k = static_cast<int>(g.range(0, 3)); i < k; ++i)
